@@ -185,6 +185,20 @@ def extract():
     warn = find_all(g, lambda n: isinstance(n, ast.Compare) and isinstance(n.left, ast.Name) and n.left.id == "avg_cov"
                     and isinstance(n.ops[0], ast.Lt) and isinstance(n.comparators[0], ast.Constant))
     out["AVG_COV_WARN"] = num(one(warn, "avg_cov < 20").comparators[0])
+    # the average-depth guard: `if [profile.cn_region and] avg_cov < profile.min_avg_coverage: ... raise`
+    guards = [n for n in ast.walk(g) if isinstance(n, ast.If) and "avg_cov < profile.min_avg_coverage" in src(n.test)
+              and any(isinstance(x, ast.Raise) for x in ast.walk(n))]
+    gd = one(guards, "genotype: average-depth guard")
+    t = gd.test
+    if isinstance(t, ast.Compare) and src(t) == "avg_cov < profile.min_avg_coverage":
+        out["GUARD_REQUIRES_CN_REGION"] = False
+    elif isinstance(t, ast.BoolOp) and isinstance(t.op, ast.And) and sorted(src(v) for v in t.values) == ["avg_cov < profile.min_avg_coverage", "profile.cn_region"]:
+        out["GUARD_REQUIRES_CN_REGION"] = True
+    else:
+        raise ExtractorMismatch("genotype: average-depth guard has an unknown condition " + src(t))
+    outer = [n for n in ast.walk(g) if isinstance(n, ast.If) and gd in n.body]
+    if len(outer) != 1 or src(outer[0].test) != "kind not in ['vcf', 'pscan']":
+        raise ExtractorMismatch("genotype: average-depth guard is not under `kind not in ['vcf', 'pscan']`")
     exome = find_all(g, lambda n: isinstance(n, ast.Assign) and isinstance(n.targets[0], ast.Subscript)
                      and src(n.targets[0]) == "params['min_coverage']")
     out["EXOME_MIN_COVERAGE"] = num(one(exome, "exome min_coverage").value)
@@ -323,6 +337,7 @@ def emit(c) -> str:
     A("")
     for k in ["ESCAPE_MAXLEN", "VCF_ALT_READS", "VCF_REF_READS", "VCF_QUAL"]:
         A(f"def {k} : Nat := {c[k]}")
+    A(f"def GUARD_REQUIRES_CN_REGION : Bool := {'true' if c['GUARD_REQUIRES_CN_REGION'] else 'false'}")
     A(f"def CN_PCE_VAR : String := {lean_str(c['CN_PCE_VAR'])}")
     A("")
     A("/-- `escape_name`: replacements in application order. -/")
